@@ -117,7 +117,7 @@ func cmdProbe(repo string) int {
 		var obs, miss []string
 		for m := range observed[n] {
 			obs = append(obs, m)
-			if relative[n] && (!static[n][m] || !(sfLocalAny[m] || sfLocalCount[m])) {
+			if relative[n] && (!static[n][m] || !(sfLocalAny[m] || sfLocalCount[m] || m == "GetPos")) {
 				miss = append(miss, m)
 			}
 		}
